@@ -77,13 +77,7 @@ class Service:
         self.sse_module_loader = None
         self.edb = None
 
-        if FileManager.check_sid_folder_exist(sid):
-            self.config = FileManager.read_service_config(sid)
-            self.service_meta = FileManager.read_service_meta(sid)
-            self._load_sse_module()
-            self._load_config_object()
-        else:  # NEW Service
-            self.service_meta = {"state": SERVICE_STATE.NOT_EXISTS}
+        self.reload()
 
         self.recv_msg_handler = {
             MsgType.CONFIG: self.handle_upload_config,
@@ -97,6 +91,16 @@ class Service:
 
         self.send_init_echo()  # Finally, send the echo for initialization message
         logger.info(f"Serve Service {self.short_sid}")
+
+    def reload(self):
+        """(re)load the stored config and state of the service"""
+        if FileManager.check_sid_folder_exist(self.sid):
+            self.config = FileManager.read_service_config(self.sid)
+            self.service_meta = FileManager.read_service_meta(self.sid)
+            self._load_sse_module()
+            self._load_config_object()
+        else:  # NEW Service
+            self.service_meta = {"state": SERVICE_STATE.NOT_EXISTS}
 
     @property
     def short_sid(self) -> str:
